@@ -2,6 +2,7 @@ package props
 
 import (
 	"fmt"
+	"strings"
 	"testing"
 	"unicode/utf8"
 
@@ -24,6 +25,7 @@ const c10Variants = 8
 var c10Programs = []string{
 	"a && b\n", "a || b\n", "case x in a) b;; esac\n", "a >>f\n", "a >|f\n", "a <<E\nb\nE\n", "a <<-E\n\tb\nE\n", "a <>f\n", "a <&3\n", "a >&2\n", "((x))\n", "$((1))\n",
 	"a; b & c\n", "if a; then b; fi\n", "for x in a b; do c; done\n", "while a; do b; done\n", "f() { a; }\n", "( a )\n", "{ a; }\n", "a | b\n", "! a\n",
+	"a& `!`\n", "a; `!` b\n", "a >f `)`\n", "x | `a | | b`\n", "a&& $(!) b\n", "a <f \"`b |`\"\n", "a; b `c ;;`\n", "a |`fi`\n",
 	"echo \"$x ${y:-z} $(a b) `c`\" 'q' \\n\n", "x=1 y=$(a) cmd\n", "a # comment\n", "a \\\n b\n", "a <<E; b\n$x\nE\n", "é日本 \"é\"\n",
 }
 
@@ -48,7 +50,21 @@ func (p c10) Gen(seed uint64, tier string, idx int) (*Case, bool) {
 		src := gen.FromSeed(gosim.Mix(seed, 0xC10, uint64(pi)))
 		o := gen.FullOpts()
 		o.MaxDepth = 2
-		switch src.Intn(6) {
+		switch src.Intn(7) {
+		case 6:
+			// an operator (whose look-ahead read may fail) followed by a substitution with a syntax error
+			g := gen.NewG(src, o)
+			pre := strings.TrimRight(g.CompleteCommand(false).Text, "\n")
+			if len(pre) > 120 {
+				pre = "a b"
+			}
+			bad := src.Pick([]string{"!", ")", "a | | b", "fi", "a ;;", "| a", "&& b", "a &&"})
+			open, close := "`", "`"
+			if src.Chance(1, 2) {
+				open, close = "$(", ")"
+			}
+			c.Src = pre + src.Pick([]string{"& ", "; ", " && ", " | ", " >f ", " <f ", " >>f ", "|"}) + src.Pick([]string{"", "c "}) + open + bad + close + "\n"
+			c.Note = "operator-then-bad-substitution"
 		case 0:
 			n := 1 + src.Intn(4)
 			for i := 0; i < n; i++ {
